@@ -22,6 +22,7 @@ calls made so far, the path and the value.
 import CtyModel.Lemmas.WalkPre
 import CtyModel.Lemmas.WalkSteps
 import CtyModel.Lemmas.WalkPathSet
+import CtyModel.Lemmas.WalkTrans
 namespace CtyModel
 namespace C19
 open Walk
@@ -163,6 +164,44 @@ theorem apply_ok_iff_steps_exist_partial (s : PathStep) (v : Value) (hs : shaped
   have := step_ok_iff s v hs hw hk
   exact ⟨by rw [this.1], this.2⟩
 
+
+/-! ## an identity transformation returns an equal value and visits the same paths -/
+
+/-- **Identity transform.**  For every schedule `σ` of Go's map iteration in
+`transform`'s object branch, every value of any shape, depth and marking that
+meets `Good` (shaped; types well formed and without optional-attribute
+annotations; every set inside is reproduced by `SetVal` from its own iteration
+order — `SetsStable`): `Transform` with the identity callback succeeds and
+returns the value itself — each list, set, map, tuple and object is rebuilt from
+its transformed members with its marks re-applied, nulls and unknowns are
+passed through — and the `(path, value)` pairs handed to the callback are exactly
+the visits of `Walk` (in post-order, attributes in `σ` order: a permutation).
+
+What the side condition leaves out: a set holding hash-tied members stored
+against their iteration order (e.g. numbers equal to 10 significant digits added
+in descending order) is rebuilt with those members in the other bucket order; the
+result is then a different representation of the same set, `RawEquals` to the
+input by stability of the sort behind set iteration.  That case is compared with
+the implementation on every run (generator `c19TiedSet`, ops `walk.trans`,
+`val.rawequals`, predicate `transform-id`) but is not covered by this theorem. -/
+theorem transform_id_partial {X : SetOracle} (hX : IterPerm X) {σ : Sched} (hσ : SchedOk σ)
+    (v : Value) (hg : Good X v) :
+    ∃ log, transform X σ idCb v = (log, .ok v) ∧ (exits log).Perm (walk X descend v).1 := by
+  refine ⟨_, transform_id_eq hX hσ v hg, ?_⟩
+  rw [walk_eq_preorder hX]
+  simp only [preorder, preFuel_visit]
+  exact exits_idEvs_perm hX hσ _ v hg.shaped []
+
+/-- the result does not depend on the schedule (the callback log does, by a permutation) -/
+theorem transform_id_schedule_indep {X : SetOracle} (hX : IterPerm X) {σ σ' : Sched}
+    (hσ : SchedOk σ) (hσ' : SchedOk σ') (v : Value) (hg : Good X v) :
+    (transform X σ idCb v).2 = (transform X σ' idCb v).2 ∧
+      (exits (transform X σ idCb v).1).Perm (exits (transform X σ' idCb v).1) := by
+  obtain ⟨l1, h1, p1⟩ := transform_id_partial hX hσ v hg
+  obtain ⟨l2, h2, p2⟩ := transform_id_partial hX hσ' v hg
+  rw [h1, h2]
+  exact ⟨rfl, p1.trans p2.symm⟩
+
 /-! ## path sets behave as mathematical sets of paths -/
 
 /-- **`pathSetRules` is lawful** on paths whose index keys are plain known numbers
@@ -242,6 +281,18 @@ example : stepExists (.getAttr "a") sample = true ∧ stepExists (.getAttr "zz")
   decide
 example : PathSet.keysOk [.getAttr "a", .index (Value.intVal 1), .index (Value.strVal "k")] = true := by
   decide
+
+/-- an oracle under which the sample's set is stable: the stored bucket ids are the hashes -/
+def X1 : SetOracle :=
+  SetOracle.storage (fun _ p => match p with | .s "p" => 5 | .s "q" => 7 | _ => 0)
+
+example : IterPerm X1 := iterPerm_storage _
+example : Good X1 sample :=
+  ⟨by decide, by decide, by
+    simp only [sample, SetsStable, SetsStableZip, SetsStableAll, and_true, true_and]
+    exact ⟨rfl, rfl⟩⟩
+example : SchedOk Sched.sorted ∧ SchedOk (fun _ ns => ns.reverse) :=
+  ⟨schedOk_sorted, fun _ ns => List.reverse_perm ns⟩
 
 end C19
 end CtyModel
